@@ -122,28 +122,41 @@ static Registry G;
 
 struct Code { long v; };
 
+// EXCEPTIONS from payload operations: th:n plants a countdown for the NEXT history step - the n-th payload construction
+// or assignment performed AT A WRAPPER SLOT (Any histories: anywhere, holders live on the heap) throws before it does
+// anything; the step reports "throw" and the history goes on with whatever state the wrapper was left in.
+struct PayloadThrow {};
+static int g_throw_in = 0;
+static bool g_throw_any = false;
+static void maybe_throw(const void *p)
+{
+  if (g_throw_in > 0 && (g_throw_any || slot_of(p) >= 0) && --g_throw_in == 0) throw PayloadThrow();
+}
 // instrumented payload: every special member checks the live set.  Trk<1> is constructible from Trk<0>.
 template <int K>
 struct Trk {
   long code;
-  Trk() : code(0) { G.construct(this, 'D'); }
-  Trk(Code c) : code(c.v) { G.construct(this, 'C'); }
-  Trk(const Trk &o) : code(G.read(&o, false) ? o.code : -1) { G.construct(this, 'C'); }
+  Trk() : code(0) { maybe_throw(this); G.construct(this, 'D'); }
+  Trk(Code c) : code(c.v) { maybe_throw(this); G.construct(this, 'C'); }
+  Trk(const Trk &o) : code(-1) { maybe_throw(this); code = G.read(&o, false) ? o.code : -1; G.construct(this, 'C'); }
   Trk(Trk &&o) : code(-1)
   {
+    maybe_throw(this);
     if (G.read(&o, true)) { code = o.code; o.code = 0; }
     G.construct(this, 'C');
   }
   template <int J, typename = typename std::enable_if<J == 0 && K == 1>::type>
-  Trk(const Trk<J> &o) : code(G.read(&o, false) ? o.code : -1) { G.construct(this, 'C'); }
+  Trk(const Trk<J> &o) : code(-1) { maybe_throw(this); code = G.read(&o, false) ? o.code : -1; G.construct(this, 'C'); }
   template <int J, typename = typename std::enable_if<J == 0 && K == 1>::type>
   Trk(Trk<J> &&o) : code(-1)
   {
+    maybe_throw(this);
     if (G.read(&o, true)) { code = o.code; o.code = 0; }
     G.construct(this, 'C');
   }
   Trk &operator=(const Trk &o)
   {
+    maybe_throw(this);
     long c = G.read(&o, false) ? o.code : -1;
     G.assign(this);
     code = c;
@@ -151,6 +164,7 @@ struct Trk {
   }
   Trk &operator=(Trk &&o)
   {
+    maybe_throw(this);
     long c = -1;
     if (G.read(&o, true)) { c = o.code; if (&o != this) o.code = 0; }
     G.assign(this);
@@ -787,8 +801,16 @@ template <typename F> struct Run {
     G.implicit_end = RegMode<F>::v == 1;
     G.track = RegMode<F>::v != 2;
     std::string line;
+    g_throw_any = false;
+    int planted = 0;
     for (auto &tok : ops) {
-      std::string out = step(tok);
+      std::string out;
+      if (tok.compare(0, 3, "th:") == 0) { planted = std::stoi(tok.substr(3)); out = "ok"; }
+      else {
+        g_throw_in = planted; planted = 0;
+        try { out = step(tok); } catch (const PayloadThrow &) { out = "throw"; }
+        g_throw_in = 0;
+      }
       std::string at = G.take_atoms();   // events caused by the operation itself
       std::string d = dump();
       out += G.take_misuse();
@@ -1070,9 +1092,8 @@ static std::string any_step(const std::string &tok)
     } else if (c == "cd") new (g_slots[i].buf) Any();
     else if (num(3) % 2 && (num(2) == 2 || num(2) == 5)) {
       // value category: Any(T) takes its argument BY VALUE - a named non-const lvalue must come back unchanged
-      g_slots[i].kind = 1;
-      if (num(2) == 2) { std::string s = astr(num(3)); new (g_slots[i].buf) Any(s); if (s != astr(num(3))) return "ok!SRC-MODIFIED"; }
-      else { ATrk k(Code{num(3)}); new (g_slots[i].buf) Any(k); if (k.code != num(3)) return "ok!SRC-MODIFIED"; }
+      if (num(2) == 2) { std::string s = astr(num(3)); new (g_slots[i].buf) Any(s); g_slots[i].kind = 1; if (s != astr(num(3))) return "ok!SRC-MODIFIED"; }
+      else { ATrk k(Code{num(3)}); new (g_slots[i].buf) Any(k); g_slots[i].kind = 1; if (k.code != num(3)) return "ok!SRC-MODIFIED"; }
       return "ok";
     }
     else new (g_slots[i].buf) Any(any_make(num(2), num(3)));
@@ -1124,8 +1145,16 @@ static std::string any_history(const std::vector<std::string> &ops)
   G = Registry();
   G.quiet = true;
   std::string line;
+  g_throw_any = true;
+  int planted = 0;
   for (auto &tok : ops) {
-    std::string out = any_step(tok);
+    std::string out;
+    if (tok.compare(0, 3, "th:") == 0) { planted = std::stoi(tok.substr(3)); out = "ok"; }
+    else {
+      g_throw_in = planted; planted = 0;
+      try { out = any_step(tok); } catch (const PayloadThrow &) { out = "throw"; }
+      g_throw_in = 0;
+    }
     std::string d = any_dump();
     out += G.take_misuse();
     line += out + "|" + d + " ; ";
